@@ -87,11 +87,12 @@ var plans = []Plan{
 
 	{
 		ID: "C15", Level: "exploration",
-		Rule: "(A) private_key_jwt client assertions and (B) JWT-bearer grants built from a valid claim set by 0-2 named defects (each claim absent / wrong type / wrong value / boundary time, exp in {0, 0.5, -1, past, string}, alg none / HS256 / RS384 / PS256 / ES256, kid right / absent / unknown, key registered / another client's or subject's / unregistered, scope outside the key's scopes, option flags for optional iat / jti, max duration, client authentication) presented inside short histories with replays of accepted assertions and time advances; oracle: a list of must-refuse reasons derived from the statement - acceptance with a non-empty list is a violation, a defect-free assertion must be accepted; (C) schedules: 2 (exhaustive) or 3 (bounded DFS) simultaneous presentations of the same assertion with the harness owning the order of their storage steps - exactly one succeeds. Non-trivial: an assertion with exactly one must-refuse reason, a replay, or a schedule in which the storage steps of different presentations alternate; distinct by defect lists / storage-step order.",
+		Rule: "(A) private_key_jwt client assertions and (B) JWT-bearer grants built from a valid claim set by 0-2 named defects (each claim absent / wrong type / wrong value / boundary time, exp in {0, 0.5, -1, past, string}, alg none / HS256 / RS384 / PS256 / ES256, kid right / absent / unknown, key registered / another client's or subject's / unregistered, scope outside the key's scopes, option flags for optional iat / jti, max duration, client authentication) presented inside short histories with replays of accepted assertions and time advances; oracle: a list of must-refuse reasons derived from the statement - acceptance with a non-empty list is a violation, a defect-free assertion must be accepted; (C) schedules: 2 (exhaustive) or 3 (bounded DFS) simultaneous presentations of the same assertion with the harness owning the order of their storage steps - exactly one succeeds; (D) free-running: 6 goroutines present one fresh assertion (client assertion at the token endpoint, JWT-bearer grant, SetClientAssertionJWT at the reference store) at the same instant, thousands of rounds with real parallelism - at most one is accepted (reaches non-atomicity inside one storage call, below the schedule engine's resolution); client assertions are presented at the token, PAR, revocation and device-authorization endpoints, with lifetimes up to 3 days against a configured JWT-bearer maximum of 2 min / 1 h / 24 h. Non-trivial: an assertion with exactly one must-refuse reason, a replay, or a schedule in which the storage steps of different presentations alternate; distinct by defect lists / storage-step order.",
 		Jobs: []Job{
 			{Test: "TestC15_ClientAssertions", Shards: [2]int{6, 8}, Checks: [2]int{600, 10000}, Timeout: [2]int{600, 3000}},
 			{Test: "TestC15_JWTBearer", Shards: [2]int{6, 8}, Checks: [2]int{600, 10000}, Timeout: [2]int{600, 3000}},
 			{Test: "TestC15_Schedules", Shards: [2]int{8, 8}, Timeout: [2]int{600, 3000}},
+			{Test: "TestC15_ConcurrentPresentations", Shards: [2]int{3, 6}, Timeout: [2]int{600, 3000}},
 		},
 	},
 
